@@ -131,6 +131,8 @@ std::vector<TecmpPayloadPtr> TECMP::Decoder::GetInterfacePayload(const uint8_t* 
     // Get base values
     InterfacePayload payload;
     std::size_t busDataOffset = 12;
+    if (size < busDataOffset)
+        return payloads;
     payload.setGenericData(payloadData);
 
     while (size - busDataOffset >= 12)
